@@ -246,6 +246,45 @@ macro_rules! grammar_int_body {
     }};
 }
 
+/// C11 on the integer parser under a separator format: complete Ok(v) <=> partial Ok((v, len)); partial Ok((v, n)), n > 0 =>
+/// complete(prefix n) == Ok(v)
+pub fn cmp_sep_partial_complete_int<const F: u128>(s: &[u8]) -> Result<(), &'static str> {
+    use lexical_parse_integer::{FromLexicalWithOptions, Options as IOptions};
+    let opts = IOptions::new();
+    let rc = u64::from_lexical_with_options::<F>(s, &opts);
+    let rp = u64::from_lexical_partial_with_options::<F>(s, &opts);
+    match (&rc, &rp) {
+        (Ok(c), Ok((p, n))) => { if *n != s.len() || c != p { return Err("complete Ok(v) => partial Ok((v, len)) (integer)"); } },
+        (Ok(_), Err(_)) => return Err("complete Ok(v) => partial Ok (integer)"),
+        (Err(_), Ok((_, n))) => { if *n == s.len() { return Err("partial Ok((v, len)) => complete Ok(v) (integer)"); } },
+        (Err(_), Err(_)) => {},
+    }
+    if let Ok((p, n)) = &rp {
+        if *n > s.len() { return Err("count <= len"); }
+        if *n > 0 {
+            match u64::from_lexical_with_options::<F>(&s[..*n], &opts) {
+                Ok(c) => if c != *p { return Err("partial Ok((v, n)) => complete(prefix n) has the same value (integer)") },
+                Err(_) => return Err("partial Ok((v, n)) => complete(prefix n) is Ok (integer)"),
+            }
+        }
+    }
+    Ok(())
+}
+
+macro_rules! pc_int_body {
+    ($F:expr, $L:expr) => {{
+        const F: u128 = $F;
+        let bytes: [u8; $L] = any();
+        let len: usize = any();
+        assume(len <= $L);
+        let mut i = 0;
+        while i < $L { let c = bytes[i]; assume(c == b'0' || c == b'7' || c == b'_' || c == b'x'); i += 1; }
+        let r = cmp_sep_partial_complete_int::<F>(&bytes[..len]);
+        vcheck!(r.is_ok(), "integer parser: partial and complete agree under a digit-separator format");
+        cover(len == $L);
+    }};
+}
+
 macro_rules! grammar_body {
     ($F:expr, $L:expr) => {{
         const F: u128 = $F;
@@ -265,6 +304,86 @@ macro_rules! grammar_body {
 }
 
 crate::harnesses! {
+    /// partial vs complete INTEGER parser, flags LTC: strings len <= 5 over {0 7 _ x}.
+    /// @prop C11 C13
+    /// @feat format radix_format
+    /// @bound format F_LTC; integer inputs of length <= 5 over {0 7 _ x}
+    /// @fn lexical-parse-integer::algorithm (complete / partial instantiations)
+    /// @fn lexical-util::skip::is_ltc!
+    /// @timeout 1200
+    #[cfg_attr(kani, kani::unwind(8))]
+    fn sep_partial_complete_int_ltc() { pc_int_body!(F_LTC, 5) }
+
+    /// partial vs complete INTEGER parser, flags ITC: strings len <= 5 over {0 7 _ x}.
+    /// @prop C11 C13
+    /// @feat format radix_format
+    /// @bound format F_ITC; integer inputs of length <= 5 over {0 7 _ x}
+    /// @fn lexical-parse-integer::algorithm (complete / partial instantiations)
+    /// @fn lexical-util::skip::is_itc!
+    /// @timeout 1200
+    #[cfg_attr(kani, kani::unwind(8))]
+    fn sep_partial_complete_int_itc() { pc_int_body!(F_ITC, 5) }
+
+    /// partial vs complete INTEGER parser, flags ILC: strings len <= 5 over {0 7 _ x}.
+    /// @prop C11 C13
+    /// @feat format radix_format
+    /// @bound format F_ILC; integer inputs of length <= 5 over {0 7 _ x}
+    /// @fn lexical-parse-integer::algorithm (complete / partial instantiations)
+    /// @fn lexical-util::skip::is_ilc!
+    /// @timeout 1200
+    #[cfg_attr(kani, kani::unwind(8))]
+    fn sep_partial_complete_int_ilc() { pc_int_body!(F_ILC, 5) }
+
+    /// partial vs complete INTEGER parser, flags ILTC: strings len <= 5 over {0 7 _ x}.
+    /// @prop C11 C13
+    /// @feat format radix_format
+    /// @bound format F_ALL; integer inputs of length <= 5 over {0 7 _ x}
+    /// @fn lexical-parse-integer::algorithm (complete / partial instantiations)
+    /// @fn lexical-util::skip::is_iltc!
+    /// @timeout 1200
+    #[cfg_attr(kani, kani::unwind(8))]
+    fn sep_partial_complete_int_iltc() { pc_int_body!(F_ALL, 5) }
+
+    /// partial vs complete INTEGER parser, flags LT: strings len <= 5 over {0 7 _ x}.
+    /// @prop C11 C13
+    /// @feat format radix_format
+    /// @bound format F_LT; integer inputs of length <= 5 over {0 7 _ x}
+    /// @fn lexical-parse-integer::algorithm (complete / partial instantiations)
+    /// @fn lexical-util::skip::is_lt!
+    /// @timeout 1200
+    #[cfg_attr(kani, kani::unwind(8))]
+    fn sep_partial_complete_int_lt() { pc_int_body!(F_LT, 5) }
+
+    /// partial vs complete INTEGER parser, flags TC: strings len <= 5 over {0 7 _ x}.
+    /// @prop C11 C13
+    /// @feat format radix_format
+    /// @bound format F_TC; integer inputs of length <= 5 over {0 7 _ x}
+    /// @fn lexical-parse-integer::algorithm (complete / partial instantiations)
+    /// @fn lexical-util::skip::is_tc!
+    /// @timeout 1200
+    #[cfg_attr(kani, kani::unwind(8))]
+    fn sep_partial_complete_int_tc() { pc_int_body!(F_TC, 5) }
+
+    /// partial vs complete INTEGER parser, flags T: strings len <= 5 over {0 7 _ x}.
+    /// @prop C11 C13
+    /// @feat format radix_format
+    /// @bound format F_T; integer inputs of length <= 5 over {0 7 _ x}
+    /// @fn lexical-parse-integer::algorithm (complete / partial instantiations)
+    /// @fn lexical-util::skip::is_t!
+    /// @timeout 1200
+    #[cfg_attr(kani, kani::unwind(8))]
+    fn sep_partial_complete_int_t() { pc_int_body!(F_T, 5) }
+
+    /// partial vs complete INTEGER parser, flags IT: strings len <= 5 over {0 7 _ x}.
+    /// @prop C11 C13
+    /// @feat format radix_format
+    /// @bound format F_IT; integer inputs of length <= 5 over {0 7 _ x}
+    /// @fn lexical-parse-integer::algorithm (complete / partial instantiations)
+    /// @fn lexical-util::skip::is_it!
+    /// @timeout 1200
+    #[cfg_attr(kani, kani::unwind(8))]
+    fn sep_partial_complete_int_it() { pc_int_body!(F_IT, 5) }
+
     /// separator-position grammar on the INTEGER parser, separators enabled for the fraction only (none valid in an integer): strings len <= 5 over {0 7 _}.
     /// @prop C13
     /// @feat format radix_format
@@ -420,6 +539,8 @@ crate::harnesses! {
 
     /// partial vs complete tokenizer, flags LTC: strings len <= 3 over {0 7 _ . e x}.
     /// @prop C11 C13
+    /// @tier thorough
+    /// @mem 16
     /// @feat format radix_format
     /// @bound format F_LTC; input length <= 3 over {0 7 _ . e x}
     /// @fn lexical-parse-float::parse::{parse_partial_number, parse_complete_number}
@@ -442,6 +563,8 @@ crate::harnesses! {
 
     /// partial vs complete tokenizer, flags ITC: strings len <= 3 over {0 7 _ . e x}.
     /// @prop C11 C13
+    /// @tier thorough
+    /// @mem 16
     /// @feat format radix_format
     /// @bound format F_ITC; input length <= 3 over {0 7 _ . e x}
     /// @fn lexical-parse-float::parse::{parse_partial_number, parse_complete_number}
@@ -465,6 +588,7 @@ crate::harnesses! {
     /// partial vs complete tokenizer, flags ILC: strings len <= 3 over {0 7 _ . e x}.
     /// @prop C11 C13
     /// @tier thorough
+    /// @mem 16
     /// @feat format radix_format
     /// @bound format F_ILC; input length <= 3 over {0 7 _ . e x}
     /// @fn lexical-parse-float::parse::{parse_partial_number, parse_complete_number}
@@ -487,6 +611,8 @@ crate::harnesses! {
 
     /// partial vs complete tokenizer, flags ILTC: strings len <= 3 over {0 7 _ . e x}.
     /// @prop C11 C13
+    /// @tier thorough
+    /// @mem 16
     /// @feat format radix_format
     /// @bound format F_ALL; input length <= 3 over {0 7 _ . e x}
     /// @fn lexical-parse-float::parse::{parse_partial_number, parse_complete_number}
@@ -510,6 +636,7 @@ crate::harnesses! {
     /// partial vs complete tokenizer, flags ILT: strings len <= 3 over {0 7 _ . e x}.
     /// @prop C11 C13
     /// @tier thorough
+    /// @mem 16
     /// @feat format radix_format
     /// @bound format F_ILT; input length <= 3 over {0 7 _ . e x}
     /// @fn lexical-parse-float::parse::{parse_partial_number, parse_complete_number}
@@ -533,6 +660,7 @@ crate::harnesses! {
     /// partial vs complete tokenizer, flags LT: strings len <= 3 over {0 7 _ . e x}.
     /// @prop C11 C13
     /// @tier thorough
+    /// @mem 16
     /// @feat format radix_format
     /// @bound format F_LT; input length <= 3 over {0 7 _ . e x}
     /// @fn lexical-parse-float::parse::{parse_partial_number, parse_complete_number}
@@ -555,6 +683,7 @@ crate::harnesses! {
 
     /// separator-position grammar, flags I (all components): strings len <= 4 over {0 7 _ . e}.
     /// @prop C13
+    /// @tier thorough
     /// @feat format radix_format
     /// @bound format F_I; input length <= 4 over {0 7 _ . e}
     /// @fn lexical-util::skip::is_i! (@first/@internal) via peek_1/peek_n and lexical-parse-float::parse::parse_number
@@ -743,6 +872,7 @@ crate::harnesses! {
 
     /// separator-position grammar, flags ITC (all components): strings len <= 4 over {0 7 _ . e}.
     /// @prop C13
+    /// @tier thorough
     /// @feat format radix_format
     /// @bound format F_ITC; input length <= 4 over {0 7 _ . e}
     /// @fn lexical-util::skip::is_itc! (@first/@internal) via peek_1/peek_n and lexical-parse-float::parse::parse_number
